@@ -694,3 +694,19 @@ package mocker
 //@   ensures default_results_untouched: w.defaultReturns == old(w.defaultReturns) && w.curMatch == old(w.curMatch)
 //@   ensures same_builder: result == w
 //@   panics_only_if a_pair_is_rejected: true
+
+// ---- C08: one variable mocker per variable ---------------------------------------------------------------------------------
+// The builder caches variable mockers under a key that identifies the variable's ADDRESS (var_key, extern.spec): the
+// mocker handed out for &v was built for &v - never for another variable that happens to print the same, and the same
+// one is found again for as long as it is not cancelled, whatever the variable currently holds.
+//@ pure func var_cached_for(m Mocker, a uintptr) bool = typeof(m) == typeid(*defaultVarMocker) ==> unbox(m, *defaultVarMocker) != nil && alive(unbox(m, *defaultVarMocker)) && rv_pointer(unbox(m, *defaultVarMocker).targetValue) == a
+//@ pure func var_cache_inv(b *Builder) bool = forall k string :: has(b.mockers, iface_of(k)) ==> var_cached_for(b.mockers[iface_of(k)], key_addr(k))
+//@ func (b *Builder) Var
+//@   props C08
+//@   safety off
+//@   requires receiver: b != nil && b.mockers != nil && v != nil
+//@   requires cache: var_cache_inv(b)
+//@   assigns everything
+//@   ensures mocks_the_variable_it_was_given: result != nil && (typeof(result) == typeid(*defaultVarMocker) ==> unbox(result, *defaultVarMocker) != nil && rv_pointer(unbox(result, *defaultVarMocker).targetValue) == rv_pointer(value_of(v)))
+//@   ensures cache_kept: var_cache_inv(b)
+//@   panics_only_if not_a_pointer: true
